@@ -58,6 +58,10 @@ SOFTWARE.
     } while (0)
 #define RESET_ROUTE() self->route_state = 0
 
+/* A U+0000 in the input is held in Py_UCS4 variables as this out-of-range value so
+   that it is never confused with '\0', which means "end of input". */
+#define INPUT_NUL ((Py_UCS4) 0x110000)
+
 /* Shared globals */
 
 extern char **entitydefs;
